@@ -318,3 +318,18 @@ Proof.
   - unfold descr. apply Forall_map. eapply Forall_impl; [|exact Hwf]. apply descr1_wf.
   - unfold descr. rewrite map_length. exact Hlen.
 Qed.
+
+(* ---------------------------------------------------------------- Fletcher-32 NOT outermost: refuted
+   A checksum only protects the bytes it is computed over.  With an LZF stage applied after it, one
+   altered stored byte changes the LENGTH of the decoded all-zero data, and Fletcher-32 of zeros is 0
+   for every length: the decoder returns 36 zeros instead of the 40 that were written. *)
+Definition refuted_fs : list filter := [FFletcher; FLzf].
+Definition refuted_x : bytes := repeat 0 40.
+Definition refuted_stored : bytes := [1; 0; 0; 224; 0; 33].
+
+Lemma fletcher_inner_refuted :
+  pipeline_apply (fun _ x => x) refuted_fs refuted_x = Ok refuted_stored /\
+  nth 5 refuted_stored 0 = 33 /\
+  pipeline_remove (fun x => Some x) refuted_fs (upd 5 29 refuted_stored) = Ok (repeat 0 36) /\
+  reader_apply (fun x => Some x) (descr refuted_fs) (upd 5 29 refuted_stored) = Ok (repeat 0 36).
+Proof. vm_compute. repeat split; reflexivity. Qed.
